@@ -3,7 +3,6 @@ package main
 import (
 	"fmt"
 	"go/ast"
-	"go/token"
 	"math/big"
 )
 
@@ -21,42 +20,15 @@ func intListOf(r *Report, pkgRel, fn string) ([]*big.Int, ast.Node) {
 		return nil, nil
 	}
 	fd := funcDecl(p, fn)
-	if fd == nil || fd.Body == nil || len(fd.Body.List) < 1 || len(fd.Body.List) > 2 {
+	if fd == nil {
 		return nil, nil
 	}
-	rs, ok := fd.Body.List[len(fd.Body.List)-1].(*ast.ReturnStmt)
-	if !ok || len(rs.Results) != 1 {
+	ret := singleReturnExpr(p.TypesInfo, fd)
+	if ret == nil {
 		return nil, nil
-	}
-	ret := rs.Results[0]
-	if len(fd.Body.List) == 2 {
-		// `t := e; return t` / `var t = e; return t`: a temporary defined once and
-		// returned at once is the same table as `return e`.
-		id, ok := ast.Unparen(ret).(*ast.Ident)
-		if !ok {
-			return nil, nil
-		}
-		ret = nil
-		switch st := fd.Body.List[0].(type) {
-		case *ast.AssignStmt:
-			if st.Tok == token.DEFINE && len(st.Lhs) == 1 && len(st.Rhs) == 1 {
-				if l, ok := st.Lhs[0].(*ast.Ident); ok && p.TypesInfo.Defs[l] != nil && p.TypesInfo.Defs[l] == p.TypesInfo.Uses[id] {
-					ret = st.Rhs[0]
-				}
-			}
-		case *ast.DeclStmt:
-			if gd, ok := st.Decl.(*ast.GenDecl); ok && gd.Tok == token.VAR && len(gd.Specs) == 1 {
-				if vs, ok := gd.Specs[0].(*ast.ValueSpec); ok && len(vs.Names) == 1 && len(vs.Values) == 1 && p.TypesInfo.Defs[vs.Names[0]] == p.TypesInfo.Uses[id] {
-					ret = vs.Values[0]
-				}
-			}
-		}
-		if ret == nil {
-			return nil, nil
-		}
 	}
 	var out []*big.Int
-	switch e := ast.Unparen(ret).(type) {
+	switch e := ret.(type) {
 	case *ast.CompositeLit:
 		for _, el := range e.Elts {
 			ce, ok := el.(*ast.CallExpr)
